@@ -372,7 +372,20 @@ def R5_loop_cursor(run):
         reach = [t for t in ups if t not in other]
         ok = len(reach) == 1
         if ok:
-            t = reach[0]
+            # `next - i32::from(a_to_b)`: the widened flag is the constant the direction fixes
+            def fold(x):
+                x = strip(x)
+                if x[0] == "cast" and strip(x[1])[0] == "param" and strip(x[1])[1] in ctx:
+                    return ("const", int(ctx[strip(x[1])[1]]), None, x[2])
+                if x[0] == "bin" and x[1] in ("Sub", "SubWithOverflow", "Add", "AddWithOverflow"):
+                    a_, b_ = fold(x[2]), fold(x[3])
+                    if b_[0] == "param" and b_[1] in ctx:      # (strip() looks through the widening cast)
+                        b_ = ("const", int(ctx[b_[1]]), None, None)
+                    if b_[0] == "const" and b_[1] == 0 and not isinstance(b_[1], bool):
+                        return a_
+                    return (x[0], x[1], a_, b_)
+                return x
+            t = fold(reach[0])
             if ab:
                 ok = t[0] == "bin" and t[1] in ("Sub", "SubWithOverflow") and const_val(t[3]) == 1 and strip(t[2])[0] == "field" and strip(t[2])[2] == "1"
             else:
